@@ -1269,8 +1269,7 @@ def nd_path_tag(ctx, t, dt, c):
     """Semantic tag of the path (so that obligation names do not depend on path numbering)."""
     def tri(f, yes, no):
         return yes if ctx.entails(f) else no if ctx.entails(z3.Not(f)) else "?"
-    return ",".join([tri(present(t, c), "key-stored", "key-not-stored"), tri(M.NE(dt), "defaults-non-empty", "defaults-empty"),
-                     tri(present(dt, c), "default-under-store's-spelling", "no-default-under-store's-spelling")])
+    return ",".join([tri(present(t, c), "key-stored", "key-not-stored"), tri(present(dt, c), "default-under-store's-spelling", "no-default-under-store's-spelling")])
 
 
 def up_ensures(s):
